@@ -734,6 +734,43 @@ def _strip_TT(t):
     return t
 
 
+def _block_rows(t):
+    """[[a, b], [c, d]] for a block matrix written as np.block([[a, b], [c, d]]) or as concatenate of row-wise concatenates; None otherwise."""
+    if not isinstance(t, T.Term):
+        return None
+    if t.op == "np.block" and t.args and isinstance(t.args[0], (list, tuple)) and all(isinstance(r, (list, tuple)) for r in t.args[0]):
+        return [list(r) for r in t.args[0]]
+
+    def cat(x, axis_want):
+        if isinstance(x, T.Term) and x.op in ("np.concatenate",) and x.args and isinstance(x.args[0], (list, tuple)):
+            ax = x.kwargs.get("axis", x.args[1] if len(x.args) > 1 else 0)
+            if ax in axis_want:
+                return list(x.args[0])
+        if isinstance(x, T.Term) and x.op == "np.hstack" and 1 in axis_want and x.args and isinstance(x.args[0], (list, tuple)):
+            return list(x.args[0])
+        if isinstance(x, T.Term) and x.op == "np.vstack" and 0 in axis_want and x.args and isinstance(x.args[0], (list, tuple)):
+            return list(x.args[0])
+        return None
+
+    rows = cat(t, (0, -2))
+    if rows is None:
+        return None
+    out = []
+    for r in rows:
+        cols = cat(r, (1, -1))
+        if cols is None:
+            return None
+        out.append(cols)
+    return out
+
+
+def _same_block_matrix(a, b):
+    if a is b:
+        return True
+    ra, rb = _block_rows(a), _block_rows(b)
+    return ra is not None and rb is not None and T._freeze(ra) == T._freeze(rb)
+
+
 def reversal_kernel_rules(chk, S):
     import ast as _ast
 
@@ -771,8 +808,8 @@ def reversal_kernel_rules(chk, S):
         """'RY' | 'R12' | 'RXY' for slices of the triangularised joint factor [[R_YX, 0], [R_X_F, R_X]] at d = R_YX.shape[1]."""
         if not (isinstance(t, T.Term) and t.op == "getitem" and isinstance(t.args[0], T.Term) and t.args[0].op == "TRIU" and isinstance(t.args[1], tuple) and len(t.args[1]) == 2):
             return None
-        if t.args[0] is not joint:
-            return None
+        if t.args[0] is not joint and not (t.args[0].op == "TRIU" and _same_block_matrix(t.args[0].args[0], joint.args[0])):
+            return None  # (np.block and row-wise / column-wise concatenation are the same block matrix)
 
         def part(sl):
             if isinstance(sl, slice):
